@@ -1,4 +1,5 @@
 import Gearpy.Proofs.Solver
+import Gearpy.Properties.C01
 import Mathlib.Tactic.FieldSimp
 /-!
 # C02 — torque propagation and balance along the chain at every instant
@@ -13,7 +14,9 @@ recorded instant satisfies:
 * each upstream load torque is its follower's divided by efficiency and ratio
   (`LoadOK`; `load_mul` gives the division-free form under `η, r ≠ 0` — the code raises
   `ZeroDivisionError` at `η = 0`, Lean's `x / 0 = 0` is never relied upon);
-* net torque = driving − load, element by element.
+* net torque = driving − load, element by element;
+* `stage_power` / `chain_power`: with C01, the driving power leaving a stage is the power entering it times the
+  stage's efficiency, and end to end the product of the efficiencies — at every recorded instant of every history.
 -/
 
 namespace Gearpy.C02
@@ -111,5 +114,47 @@ def exCfg : Cfg :=
     load := fun p v t => 1/10 + p / 100 + v / 50 + t / 7, control := none }
 example : (match exec exCfg [.run (1/4) 3 none] (St.init 0 1) with
     | .ok s => s.recs.map (·.ltorque.length) | .error _ => []) = [3, 3, 3, 3] := by decide +kernel
+
+/-! ### power balance (C01 and C02 together) -/
+/-- **Power balance of every stage** (C01 and C02 together): the driving power leaving stage `i` is the driving power
+    entering it times the stage's efficiency — `d_{i+1}·ω_{i+1} = η_{i+1}·(d_i·ω_i)` — at every recorded instant of
+    every history, whatever the ratio.  A torque law with the ratio on the wrong side, or a speed law with the inverse
+    ratio, breaks this identity even where each looks plausible alone. -/
+theorem stage_power (c : Cfg) (ops : List Op) (p v : Q) (s' : St)
+    (he : exec c ops (St.init p v) = .ok s') :
+    ∀ r ∈ s'.recs, ∀ i (hi : i < c.links.length) (hd : i + 1 < r.dtorque.length) (hw : i + 1 < r.speed.length),
+      r.dtorque[i+1] * r.speed[i+1] = c.links[i].eff * (r.dtorque[i]'(by omega) * r.speed[i]'(by omega)) := by
+  intro r hr i hi hd hw
+  have h := all_records_ok c ops _ s' (init_inv c p v) he r hr
+  have h1 := (drive_get h.drive).2 i hi hd
+  have h2 := (C01.coupled_get h.speed).2 i (by simpa using hi) hw
+  simp only [List.getElem_map] at h2
+  rw [h1, h2]; ring
+
+/-- end to end: the driving power at the last element is the motor's driving power times the product of the
+    efficiencies of the stages in between (stated for the first `k` stages) -/
+theorem chain_power (c : Cfg) (ops : List Op) (p v : Q) (s' : St)
+    (he : exec c ops (St.init p v) = .ok s') :
+    ∀ r ∈ s'.recs, ∀ k (hk : k ≤ c.links.length) (hd : k < r.dtorque.length) (hw : k < r.speed.length),
+      r.dtorque[k] * r.speed[k] =
+        ((c.links.take k).map (·.eff)).prod * (r.dtorque[0]'(by omega) * r.speed[0]'(by omega)) := by
+  intro r hr k
+  induction k with
+  | zero => intro _ _ _; simp
+  | succ k ih =>
+    intro hk hd hw
+    have hs := stage_power c ops p v s' he r hr k (by omega) hd hw
+    have := ih (by omega) (by omega) (by omega)
+    rw [hs, this, List.take_add_one]
+    simp only [List.getElem?_eq_getElem (show k < c.links.length by omega), Option.toList_some, List.map_append,
+      List.map_cons, List.map_nil, List.prod_append, List.prod_cons, List.prod_nil]
+    ring
+
+/-- non-vacuity: in the example run the power at the last element is `9/10 · 4/5` of the motor's at every instant -/
+example : (match exec exCfg [.run (1/4) 3 none] (St.init 0 1) with
+    | .ok s => s.recs.all (fun (r : Rec) =>
+        decide ((r.dtorque.getD 2 0) * (r.speed.getD 2 0) = 9/10 * (4/5) * ((r.dtorque.getD 0 0) * (r.speed.getD 0 0))
+          ∧ r.speed.getD 0 0 ≠ 0 ∧ r.dtorque.getD 0 0 ≠ 0))
+    | .error _ => false) = true := by decide +kernel
 
 end Gearpy.C02
